@@ -27,6 +27,11 @@ def _run(name, mon, payloads, rule, samples=None):
     outs = corr.run_impl(lines)
     failing, nontriv, crashed = [], set(), 0
     for l, o in zip(lines, outs):
+        if o.startswith('X worker-hang'):
+            hist = corr.hang_log[-1][-60:] if corr.hang_log and 'history' in o else []
+            failing.append({'signature': 'hang', 'what': 'the call never returned (the worker process had to be killed): ' + o[2:],
+                            'input': l[:400], 'history': hist})
+            continue
         if o.startswith('X worker-crash'):
             failing.append({'signature': 'interpreter-crash', 'what': 'the worker process died on this case', 'input': l[:400]})
             continue
